@@ -141,6 +141,79 @@ def run_z3_relevant(ob, timeout_ms=4000):
     return "unknown", time.time() - t
 
 
+def _has_op(e, kinds, cache):
+    k = e.get_id()
+    if k in cache:
+        return cache[k]
+    stack, seen, found = [e], set(), False
+    while stack and not found:
+        x = stack.pop()
+        i = x.get_id()
+        if i in seen:
+            continue
+        seen.add(i)
+        if z3.is_quantifier(x):
+            stack.append(x.body())
+        elif z3.is_app(x):
+            if x.decl().kind() in kinds:
+                found = True
+            stack.extend(x.children())
+    cache[k] = found
+    return found
+
+
+def run_z3_noconcat(ob, timeout_ms=6000):
+    """fewer hypotheses (sound): leave out every hypothesis that contains a sequence concatenation when the goal has none.
+    The purified appends / dict stores state lengths, elements and membership of the new sequence separately, so the
+    Concat equations are only fodder for the sequence solver"""
+    t = time.time()
+    kinds = {z3.Z3_OP_SEQ_CONCAT}
+    cache = {}
+    try:
+        if _has_op(ob.goal, kinds, cache):
+            return "unknown", 0.0
+        hy = [h for h in ob.hyps if not _has_op(h, kinds, cache)]
+        if len(hy) == len(ob.hyps):
+            return "unknown", time.time() - t
+        s = z3.Solver()
+        s.set("timeout", timeout_ms)
+        s.add(hy)
+        s.add(z3.Not(ob.goal))
+        r = s.check()
+        if r != z3.unsat:
+            # second attempt: also without the hypotheses that nest quantifiers (instances of membership lemmas for every
+            # element of a list): they multiply instantiations and are rarely what a preservation step needs
+            hy2 = [h for h in hy if _quant_depth(h) <= 1]
+            if len(hy2) < len(hy):
+                s = z3.Solver()
+                s.set("timeout", timeout_ms)
+                s.add(hy2)
+                s.add(z3.Not(ob.goal))
+                r = s.check()
+    except z3.Z3Exception:
+        return "unknown", time.time() - t
+    return ("unsat" if r == z3.unsat else "unknown"), time.time() - t
+
+
+def _quant_depth(e):
+    best = 0
+    stack = [(e, 0)]
+    seen = set()
+    while stack:
+        x, d = stack.pop()
+        key = (x.get_id(), d)
+        if key in seen:
+            continue
+        seen.add(key)
+        if z3.is_quantifier(x):
+            d += 1
+            best = max(best, d)
+            stack.append((x.body(), d))
+        elif z3.is_app(x):
+            stack.extend((c, d) for c in x.children())
+    return best
+
+
 def run_z3_abstract(ob, timeout_ms=5000):
     t = time.time()
     try:
@@ -233,6 +306,12 @@ def discharge(ob, both=False, use_cvc5=True):
             if rr_ == "unsat":
                 ob.verdict, ob.backend = "discharged", "z3-relevant-hypotheses"
                 return ob
+        if "z3-without-concat-hypotheses" in pb:
+            rn_, dtn = run_z3_noconcat(ob, budget("z3-without-concat-hypotheses", 6000, 20000))
+            ob.time += dtn
+            if rn_ == "unsat":
+                ob.verdict, ob.backend = "discharged", "z3-without-concat-hypotheses"
+                return ob
         if use_cvc5 and "cvc5" in pb:
             r2, dt2, why = run_cvc5(ob, int(min(45, max(CVC5_TIMEOUT_S, 3 * pb["cvc5"] + 5))))
             ob.time += dt2
@@ -244,6 +323,11 @@ def discharge(ob, both=False, use_cvc5=True):
         ob.time += dtr
         if rr_ == "unsat":
             ob.verdict, ob.backend = "discharged", "z3-relevant-hypotheses"
+            return ob
+        rn_, dtn = run_z3_noconcat(ob)
+        ob.time += dtn
+        if rn_ == "unsat":
+            ob.verdict, ob.backend = "discharged", "z3-without-concat-hypotheses"
             return ob
         ra, dta = run_z3_abstract(ob, 3000)
         ob.time += dta
